@@ -2,7 +2,8 @@
    This file contains only statements closed by [exact <lemma>] and their assumptions. *)
 From Coq Require Import ZArith Reals List.
 From Coquelicot Require Import Coquelicot.
-From FF Require Import Base.Ops Inst.RInst Base.RAlg Model.Numeric Model.Consts Model.Tie.C01 Proofs.Foi Proofs.CMBase Proofs.CMIntegral Proofs.CMBound Proofs.CMSym Proofs.CMBessel Proofs.MatAlg Proofs.Propagator Proofs.CMEvolution.
+From FF Require Import Base.Ops Inst.RInst Base.RAlg Model.Numeric Model.Consts Model.Tie.C01 Proofs.Foi Proofs.CMBase Proofs.CMIntegral Proofs.CMBound Proofs.CMSym Proofs.CMBessel Proofs.MatAlg Proofs.Propagator Proofs.CMEvolution
+  Model.Atomic Proofs.AtomicAlg Proofs.Atomic Proofs.EigIndep Proofs.Invariance Proofs.InvarianceEig.
 Local Open Scope R_scope.
 
 (* Segment integral, masked branch: the model value is the integral of e^{i x t} over [0, dt]. *)
@@ -215,3 +216,99 @@ Theorem C01_U_is_time_ordered_evolution : forall d evs Vs dts,
   feq d (fmul d (H_ d evs Vs g) (toF (nth g Vs nil))) (fmul d (toF (nth g Vs nil)) (fdiagv (fun k => cofr RO (vg RO (nth g evs nil) k)))).
 Proof. exact pulse_U_evolution. Qed.
 Print Assumptions C01_U_is_time_ordered_evolution.
+
+(* Independence of the eigen-decomposition (with agent-c03's Proofs/EigIndep.v): the control matrix and the filter function
+   do not depend on WHICH valid decomposition eigh returns for each segment -- same_segs: segment by segment both (V, ev) and
+   (V', ev') are unitary diagonalisations of the same Hermitian matrix; degenerate spectra, orderings, phases are free.
+   Together with C01_control_matrix_integral the value is therefore a function of the Hamiltonians alone. *)
+Theorem C01_cm_eig_independent : forall d thr evs Vs evs' Vs' dts om bs ns nc,
+  EigIndep.same_segs d evs Vs evs' Vs' ->
+  control_matrix_from_scratch RO d thr evs Vs (propagators RO d evs Vs dts) om bs ns nc dts (times RO dts) =
+  control_matrix_from_scratch RO d thr evs' Vs' (propagators RO d evs' Vs' dts) om bs ns nc dts (times RO dts).
+Proof. exact cm_array_eig_independent. Qed.
+Print Assumptions C01_cm_eig_independent.
+
+Theorem C01_ff_eig_independent : forall d thr evs Vs evs' Vs' dts om bs ns nc,
+  EigIndep.same_segs d evs Vs evs' Vs' ->
+  filter_function RO (length ns) (length bs) (length om)
+    (control_matrix_from_scratch RO d thr evs Vs (propagators RO d evs Vs dts) om bs ns nc dts (times RO dts)) =
+  filter_function RO (length ns) (length bs) (length om)
+    (control_matrix_from_scratch RO d thr evs' Vs' (propagators RO d evs' Vs' dts) om bs ns nc dts (times RO dts)).
+Proof. exact ff_eig_independent. Qed.
+Print Assumptions C01_ff_eig_independent.
+
+Example C01_same_H_satisfiable : EigIndep.same_H 2 [1; 1] exI [1; 1] exRot.
+Proof. exact same_H_satisfiable. Qed.
+
+(* ------------------------------------------------------------------------------------------------
+   Semantic tie of the small kernels (Proofs/KernelTie.v).  Extracted/Kernels.v is regenerated on every run by
+   tools/kernel_extract.py: a per-entry symbolic execution of the CURRENT Python bodies (NumPy buffers with out= /
+   where=mask, .real / .imag views, boolean-mask assignment, einsum strings as nested sums, util.* calls inlined).
+   The theorems state that the translated terms ARE the model functions the theorems above are about, so an edit of
+   a kernel that changes its meaning breaks the obligation named after it, and an edit that keeps it (renamed locals,
+   split statements) does not.  ge_re .. gi_im are the contents of the work buffers exp_buf / int_buf on entry: the
+   result does not depend on them.
+   ------------------------------------------------------------------------------------------------ *)
+From FF Require Import Extracted.Kernels Proofs.KernelTie.
+
+Theorem C01_kernels_translated : kernel_untranslated = nil.
+Proof. exact kernels_translated. Qed.
+
+Theorem C01_kernel_foi_is_source : forall thr w evm evn dt ge_re ge_im gi_re gi_im, 0 <= thr ->
+  foi_entry_src RO thr w evm evn dt ge_re ge_im gi_re gi_im = foi_entry RO thr w evm evn dt.
+Proof. exact foi_entry_is_source. Qed.
+Print Assumptions C01_kernel_foi_is_source.
+
+(* with the literal of the source's mask expression (no hypothesis left) *)
+Theorem C01_kernel_foi_is_source_at_literal : forall w evm evn dt ge_re ge_im gi_re gi_im,
+  foi_entry_src_at_lits RO w evm evn dt ge_re ge_im gi_re gi_im = foi_entry RO foi_thr_R w evm evn dt.
+Proof. exact foi_entry_is_source_at_literal. Qed.
+Print Assumptions C01_kernel_foi_is_source_at_literal.
+
+Theorem C01_kernel_foi_literal : foi_entry_src_lit_thr = foi_thr.
+Proof. exact foi_literal_is_model_constant. Qed.
+
+Theorem C01_kernel_foi_array_is_source : forall d thr w ev dt (ge gi : nat -> nat -> C (T:=R)), 0 <= thr ->
+  mbuild d d (fun m n => foi_entry_src RO thr w (vg RO ev m) (vg RO ev n) dt
+                           (fst (ge m n)) (snd (ge m n)) (fst (gi m n)) (snd (gi m n))) = foi RO d thr w ev dt.
+Proof. exact foi_is_source. Qed.
+
+Theorem C01_kernel_trapz_is_source : forall fl xl : list R, length xl = length fl ->
+  trapz RO fl xl = trapz_src RO (length fl) (fun i => vget RO fl i) (fun i => vget RO xl i).
+Proof. exact trapz_is_source. Qed.
+Print Assumptions C01_kernel_trapz_is_source.
+
+Theorem C01_kernel_cexp_is_source : forall x : R, cexp_entry_src RO x = cexp RO x.
+Proof. exact cexp_is_source. Qed.
+
+Theorem C01_kernel_ff_is_source : forall na nk no (Bm : Arr3 (T:=R)) a b o, (a < na)%nat -> (b < na)%nat -> (o < no)%nat ->
+  a3get RO (filter_function RO na nk no Bm) a b o = ff_entry_src RO nk (fun a' k o' => a3get RO Bm a' k o') a b o.
+Proof. exact ff_is_source. Qed.
+Print Assumptions C01_kernel_ff_is_source.
+
+Theorem C01_kernel_ffgen_is_source : forall (Bm : Arr3 (T:=R)) a b k l o,
+  ff_gen_entry RO Bm a b k l o = ffgen_entry_src RO (fun a' k' o' => a3get RO Bm a' k' o') a b k l o.
+Proof. exact ffgen_is_source. Qed.
+
+(* numeric._transform_by_unitary: two np.matmul calls through the buffer `out` (the second reads and writes it) = U^dagger A U *)
+Theorem C01_kernel_tbu_is_source : forall d (U : Mat (T:=R)) (As : list (Mat (T:=R))) b i j, (i < d)%nat -> (j < d)%nat ->
+  mget RO (transform_by_unitary RO d U (nthm As b)) i j =
+  tbu_entry_src RO d (fun i' j' => mget RO U i' j') (fun b' i' j' => mget RO (nthm As b') i' j') b i j.
+Proof. exact tbu_is_source. Qed.
+Print Assumptions C01_kernel_tbu_is_source.
+
+Theorem C01_kernel_tbu_alloc_is_source : forall d (U A : Mat (T:=R)) i j, (i < d)%nat -> (j < d)%nat ->
+  mget RO (transform_by_unitary RO d U A) i j =
+  tbu_alloc_entry_src RO d (fun i' j' => mget RO U i' j') (fun i' j' => mget RO A i' j') i j.
+Proof. exact tbu_alloc_is_source. Qed.
+
+(* numeric.calculate_control_matrix_from_atomic, which = 'total': the accumulation loop over the pulses *)
+Theorem C01_kernel_cm_atomic_is_source : forall na nk no (phases : list (list (C (T:=R)))) (cms : list (Arr3 (T:=R)))
+    (Ls : list (list (list R))) a k o, (a < na)%nat -> (k < nk)%nat -> (o < no)%nat ->
+  a3get RO (cm_from_atomic RO na nk no phases cms Ls) a k o =
+  cm_atomic_entry_src RO (length cms) nk
+    (fun g o' => nth o' (nth g phases nil) (c0 RO))
+    (fun g a' j o' => a3get RO (nth g cms nil) a' j o')
+    (fun g j k' => rget RO (nth g Ls nil) j k') a k o.
+Proof. exact cm_atomic_is_source. Qed.
+Print Assumptions C01_kernel_cm_atomic_is_source.
